@@ -459,20 +459,17 @@ package account
 // Committing the account trie (C03): for every account leaf the commit callback makes the account's storage
 // root (unless it is the empty marker) and its code / NFT-set blob (unless empty) children of the leaf's parent
 // node, so that NodeDatabase.Commit of the account root writes them too. decodedAccount / leafOK: what
-// rlp.DecodeBytes yields for the leaf (abstract); hashOfBytes: common.BytesToHash.
+// rlp.DecodeBytes yields for the leaf (abstract).
 //@ spec abstract fn decodedAccount(leaf Bytes) Account
 //@ spec abstract fn leafOK(leaf Bytes) bool
-//@ spec abstract fn hashOfBytes(b Bytes) common.Hash
 
 //@ func ext_rlpDecodeAccount
 //@   option trusted extern=com.tuntun.rangers/node/src/storage/rlp.DecodeBytes argtype=1:*storage/account.Account
 //@   ensures (result == nil) == leafOK(old(bytes(arg0))) && (result == nil ==> *arg1 == decodedAccount(old(bytes(arg0))))
 //@   modifies *arg1
 
-//@ func ext_bytesToHash
-//@   option trusted extern=com.tuntun.rangers/node/src/common.BytesToHash
-//@   ensures result == hashOfBytes(bytes(arg0))
-//@   modifies nothing
+// (common.BytesToHash keeps its place on the effect-free list: a contract for it would be applied in every
+// package and integer mode; the code hash is tied to its bytes only where the callback compares and uses it)
 
 //@ func AccountDatabase.TrieDB
 //@   option trusted interface
@@ -483,5 +480,5 @@ package account
 //@   property C03
 //@   requires adb != nil && typeid(adb.db) != 0
 //@   ensures [rootref] leafOK(old(bytes(leaf))) && decodedAccount(old(bytes(leaf))).Root != emptyData ==> @select(@select(ghost(refd), bytes(parent)), bytes(decodedAccount(old(bytes(leaf))).Root))
-//@   ensures [coderef] leafOK(old(bytes(leaf))) && hashOfBytes(bytes(decodedAccount(old(bytes(leaf))).NFTSetDefinitionHash)) != emptyCode ==> @select(@select(ghost(refd), bytes(parent)), bytes(hashOfBytes(bytes(decodedAccount(old(bytes(leaf))).NFTSetDefinitionHash))))
+//@   ensures [coderef] leafOK(old(bytes(leaf))) && @tohash32(bytes(decodedAccount(old(bytes(leaf))).NFTSetDefinitionHash)) != bytes(emptyCode) ==> @select(@select(ghost(refd), bytes(parent)), @tohash32(bytes(decodedAccount(old(bytes(leaf))).NFTSetDefinitionHash)))
 //@   ensures [ok] result == nil
